@@ -1141,6 +1141,23 @@ Definition norm_reload (name : str) (chunks : list str) (fresh : str) : res str 
   | Some t => norm_set t
   end.
 
+(* the width NormalizedString.serialize asks textwrap for: max(COLS - (len(name) + EXTRA), MIN) (constants
+   regenerated; MIN = 0 when the source has no max()).  textwrap.wrap raises ValueError for a width <= 0
+   and registry.close() only logs the exception: the value line is then NOT WRITTEN. *)
+Definition wrap_width_with (minw : nat) (name : str) : nat :=
+  Nat.max (gen.T15.WRAP_COLS - (length name + gen.T15.WRAP_EXTRA)) minw.
+Definition wrap_width : str -> nat := wrap_width_with gen.T15.WRAP_MIN.
+Definition norm_file_with (minw : nat) (name : str) (chunks : list str) : str :=
+  if Nat.eqb (wrap_width_with minw name) 0 then [] else wrapped_text name chunks.
+Definition norm_reload_with (minw : nat) (name : str) (chunks : list str) (fresh : str) : res str :=
+  do kvs <- open_registry (norm_file_with minw name chunks);
+  match cache_get name kvs with
+  | None => Ok fresh
+  | Some t => norm_set t
+  end.
+Definition norm_file : str -> list str -> str := norm_file_with gen.T15.WRAP_MIN.
+Definition norm_save_reload : str -> list str -> str -> res str := norm_reload_with gen.T15.WRAP_MIN.
+
 (* run: (op payload)
    0 names            -> (join text, result of split (join names))
    1 text             -> result of split text
@@ -1178,8 +1195,8 @@ Definition run (v : value) : value :=
               (tgenerations (map gDecl (gL (nth_v 0 p))) [] (map (fun g => map gTop2 (gL g)) (gL (nth_v 1 p)))))
   | 8 => let name := gS (nth_v 0 p) in
          let chunks := gLS (nth_v 1 p) in
-         L [vS (wrapped_text name chunks); vR (fun l => L (map vKV l)) (open_registry (wrapped_text name chunks));
-            vR vS (norm_reload name chunks (gS (nth_v 2 p))); vR vS (norm_set (gS (nth_v 3 p)));
+         L [vS (norm_file name chunks); vR (fun l => L (map vKV l)) (open_registry (norm_file name chunks));
+            vR vS (norm_save_reload name chunks (gS (nth_v 2 p))); vR vS (norm_set (gS (nth_v 3 p)));
             vS (uesc (string_str (gS (nth_v 4 p))))]
   | 7 => L (map (vR (fun r : list (str * str) * list pv => L [L (map vKV (fst r)); L (map vPV (snd r))]))
               (generations (map gDecl (gL (nth_v 0 p))) [] (map (fun g => map gGop (gL g)) (gL (nth_v 1 p)))))
